@@ -404,6 +404,65 @@ def run_deprecated_api_cases(res):
         res["judged"][sig_key(sig)] = 1
 
 
+def run_fixed_point_cases(res):
+    """autograd.misc.fixed_points.fixed_point (a bundled primitive with a hand-written, itself iterative VJP):
+    derivatives of order 1-3 of fixed points with closed forms, alone and nested with closures over enclosing
+    variables, in the mode combinations reverse mode supports."""
+    import autograd.numpy as anp
+    from autograd import grad
+    from autograd.misc.fixed_points import fixed_point
+
+    dist = lambda x, y: anp.max(anp.abs(x - y))
+
+    def fp_sqrt(a):
+        # Newton iteration for sqrt(a): x -> (x + a/x)/2
+        return fixed_point(lambda p: (lambda x: 0.5 * (x + p / x)), a, 1.0, dist, 1e-13)
+
+    def fp_lin(ab):
+        # x = a*cos-free affine map: x -> 0.3*x*a + b  has the fixed point b / (1 - 0.3 a)
+        return fixed_point(lambda p: (lambda x: 0.3 * p[0] * x + p[1]), ab, 0.0 * ab[1], dist, 1e-14)
+
+    cases = {
+        "sqrt:d1": (lambda: grad(fp_sqrt)(2.3), 0.5 * 2.3 ** -0.5),
+        "sqrt:d2": (lambda: grad(grad(fp_sqrt))(2.3), -0.25 * 2.3 ** -1.5),
+        "sqrt:d3": (lambda: grad(grad(grad(fp_sqrt)))(2.3), 0.375 * 2.3 ** -2.5),
+        "sqrt:closure": (lambda: grad(lambda c: c * grad(lambda a: fp_sqrt(a * c))(1.7))(1.3), None),
+        # (the parameter must carry every traced dependence: a map that closes over an enclosing tracer, or a raw
+        # Python tuple of tracers as parameter, is outside what the primitive can see - not generated)
+        "sqrt:outer_through_parameter": (lambda: grad(lambda c: grad(lambda a: fixed_point(lambda p: (lambda x: 0.5 * (x + p[0] * p[1] / x)), anp.array([a, c]), 1.0, dist, 1e-13))(1.7) * c)(1.3), None),
+        "lin:d_a": (lambda: grad(lambda a: fp_lin(anp.array([a, 0.7])))(1.2), 0.7 * 0.3 / (1 - 0.36) ** 2),
+        "lin:d_a_d_b": (lambda: grad(lambda b: grad(lambda a: fp_lin(anp.array([a, b])))(1.2))(0.7), 0.3 / (1 - 0.36) ** 2),
+        "vector:d1": (lambda: grad(lambda a: anp.sum(fixed_point(lambda p: (lambda x: 0.5 * (x + p / x)), a, onp.ones(3), dist, 1e-13) * onp.array([1.0, 2.0, 3.0])))(onp.array([1.5, 2.5, 0.8])), onp.array([1.0, 2.0, 3.0]) * 0.5 * onp.array([1.5, 2.5, 0.8]) ** -0.5),
+    }
+    # closed forms for the closure cases: d/dc [c * d/da sqrt(a c)|a=1.7] and d/dc [c * d/da sqrt(a c)]
+    c0, a1 = 1.3, 1.7
+    expr = lambda c: c * 0.5 * (a1 * c) ** -0.5 * c
+    h = 1e-6
+    cases["sqrt:closure"] = (cases["sqrt:closure"][0], (expr(c0 + h) - expr(c0 - h)) / (2 * h))
+    cases["sqrt:outer_through_parameter"] = (cases["sqrt:outer_through_parameter"][0], (expr(c0 + h) - expr(c0 - h)) / (2 * h))
+    for name, (thunk, ref) in cases.items():
+        res["evaluations"] += 1
+        sig = {"engine": "ext", "family": "fixed_point", "case": name}
+        case = {"kind": "fixed_point", "case": name}
+        try:
+            with warnings.catch_warnings():
+                warnings.simplefilter("ignore")
+                got = thunk()
+        except NotImplementedError:
+            res["judged"][sig_key(dict(sig, outcome="raised"))] = 1
+            continue
+        except Exception as e:
+            res["violations"].append({"sig": dict(sig, symptom="exception:" + type(e).__name__), "case": case, "detail": traceback.format_exc()[-400:]})
+            continue
+        if find_boxes(got):
+            res["violations"].append({"sig": dict(sig, symptom="tracer_leak"), "case": case, "detail": "%r" % (got,)})
+            continue
+        if onp.shape(got) != onp.shape(ref) or not onp.allclose(onp.asarray(got, dtype=float), ref, rtol=2e-6, atol=1e-8):
+            res["violations"].append({"sig": dict(sig, symptom="wrong_value"), "case": case, "detail": "%r, closed form %r" % (got, ref)})
+            continue
+        res["judged"][sig_key(sig)] = 1
+
+
 def run_none_shape_cases(res):
     """None-registered arguments whose shape differs from the output's: the zero must live in the
     argument's space (reverse) / the output's space (forward)."""
@@ -569,6 +628,7 @@ def run_shard(pid, tier, seed, idx, n):
     if idx == 1 % n:
         run_none_shape_cases(res)
         run_deprecated_api_cases(res)
+        run_fixed_point_cases(res)
     ncp = 400 if tier == "quick" else 6000
     for i in range(idx, ncp, n):
         rng = onp.random.Generator(onp.random.PCG64([seed, i, 37]))
@@ -592,6 +652,9 @@ def replay(pid, case):
         res["violations"] = [v for v in res["violations"] if v["case"] == case]
     elif k == "none_shape":
         run_none_shape_cases(res)
+        res["violations"] = [v for v in res["violations"] if v["case"] == case]
+    elif k == "fixed_point":
+        run_fixed_point_cases(res)
         res["violations"] = [v for v in res["violations"] if v["case"] == case]
     elif k == "deprecated":
         run_deprecated_api_cases(res)
